@@ -899,8 +899,9 @@ class Interp:
 
 
 # ---------------------------------------------------------------------------
-def explore(make_run, max_paths=256):
-    """make_run(path) -> result ; explores every decision sequence. Returns [(trace, result)]."""
+def explore(make_run, max_paths=256, stop_on=None):
+    """make_run(path) -> result ; explores every decision sequence. Returns [(trace, result)].
+    stop_on(result) -> True ends the exploration early (a refuted obligation has been found: the remaining paths cannot un-refute it)."""
     todo = [[]]
     out = []
     while todo:
@@ -908,9 +909,11 @@ def explore(make_run, max_paths=256):
         p = Path(ch)
         res = make_run(p)
         out.append((list(p.trace), res))
+        if stop_on is not None and stop_on(res):
+            return out
         todo += p.alternatives
-        if len(out) > max_paths:
-            raise SymxError("too many paths")
+        if len(out) + len(todo) > max_paths:
+            raise SymxError("too many paths (%d explored, %d pending)" % (len(out), len(todo)))
     return out
 
 
